@@ -98,6 +98,28 @@ Example C02_types_refuted :
     = RStuck (KType "push_back on non-vector _a").
 Proof. exact types_refuted_lemma. Qed.
 
+(* ---------- vector element types: a syntactic C++ rule, not a theorem about Exec ---------- *)
+(* std::vector has no conversion between different element types, so a cast of a declared vector to another vector
+   type, or a push_back of a declared vector into a vector whose element type is a different text, does not compile.
+   These two rules are reported under types_ok by c02.check; what they accept is characterised here, and g++ is the
+   oracle they are compared with in the thorough tier. *)
+Theorem C02_vector_push_accepts_only_element_type : forall G M x y tx ty,
+  vt_push G M x (CVar y) = [] -> var_vtype G M x = Some tx -> var_vtype G M y = Some ty ->
+  vec_elem tx = Some ty.
+Proof. exact vt_push_spec_lemma. Qed.
+Print Assumptions C02_vector_push_accepts_only_element_type.
+
+Theorem C02_vector_cast_accepts_only_same_type : forall G M ty y t,
+  vt_cast G M ty (CVar y) = [] -> var_vtype G M y = Some t -> is_vector_type (nospace ty) = true -> nospace ty = t.
+Proof. exact vt_cast_spec_lemma. Qed.
+Print Assumptions C02_vector_cast_accepts_only_same_type.
+
+Example C02_vector_types_examples :
+  vtypes_ok p_vec2d_good = true /\ types_ok [] p_vec2d_good = true /\
+  vtype_errs p_vec2d_cast = ["vector-cast:ntuple5"] /\ types_ok [] p_vec2d_cast = true /\
+  vtype_errs p_vec2d_push = ["push-element-type:_col13"].
+Proof. exact vtypes_examples_lemma. Qed.
+
 (* ---------- for ALL queries of fragment F1 ---------- *)
 (* The program the fragment translator emits for ANY query of F1 (Model/FragQuery.v; text-identical to the
    implementation's on every generated fragment query, checked by C01 on every run) never reads an unbound or
